@@ -12,8 +12,9 @@ import tempfile
 import panqec.cli as cli
 
 
-def launched(n_inputs, n_nodes, n_cores, trials, jobs=None):
+def launched(n_inputs, n_nodes, n_cores, trials, jobs=None, delete_existing=False, missing=None):
     tasks = []
+    missing = missing if missing is not None else []
 
     class FakeProc:
         def __init__(self, target=None, args=(), kwargs=None):
@@ -35,7 +36,14 @@ def launched(n_inputs, n_nodes, n_cores, trials, jobs=None):
         try:
             with contextlib.redirect_stdout(io.StringIO()):
                 for job in (jobs or range(1, n_nodes + 1)):
-                    cli.run_parallel.callback(d, trials, n_nodes, job, n_cores, False, True)
+                    before = len(tasks)
+                    cli.run_parallel.callback(d, trials, n_nodes, job, n_cores, delete_existing, True)
+                    if delete_existing:
+                        # the launched processes of this node write their result files; the next node starts afterwards
+                        for a in tasks[before:]:
+                            open(a[1], 'w').write('[]')
+                if delete_existing:
+                    missing.extend(sorted(os.path.basename(a[1]) for a in tasks if not os.path.exists(a[1])))
         except BaseException as ex:
             err = '%s: %s' % (type(ex).__name__, ex)
         finally:
@@ -71,7 +79,13 @@ def main():
     res = []
     for (I, N, C, T) in cfgs:
         tasks, err = launched(I, N, C, T)
-        res.append({'I': I, 'N': N, 'C': C, 'T': T, 'tasks': tasks, 'error': err})
+        rec = {'I': I, 'N': N, 'C': C, 'T': T, 'tasks': tasks, 'error': err}
+        if N >= 2 and N * C <= 64 and (I + N + C + T) % 3 == 0:
+            # the same configuration with --delete-existing, node after node on one results directory
+            miss = []
+            tasks2, err2 = launched(I, N, C, T, delete_existing=True, missing=miss)
+            rec['delete_existing'] = {'missing': miss, 'error': err2, 'same_tasks': [t[1:] for t in tasks2] == [t[1:] for t in tasks]}
+        res.append(rec)
     json.dump(res, open(out, 'w'))
     print(len(res), 'configurations')
 
